@@ -275,6 +275,8 @@ class PurityWorld:
                 return make_estimator(v["$est"])
             if "$cell" in v:
                 return np.array(v["$cell"], dtype=float)
+            if "$npint" in v:
+                return getattr(np, v.get("dtype", "int64"))(v["$npint"])
             if "$dict" in v:
                 return {k: self.resolve(x, fresh) for k, x in v["$dict"].items()}
             return {k: self.resolve(x, fresh) for k, x in v.items()}
